@@ -103,6 +103,57 @@ theorem sessionA_sticky (extra : Nat) (σ : BState) (buf : Bytes) (term : Term)
     | resp r => exact absurd rfl (h r)
     | _ => simp only [List.replicate_succ]; rw [ih']; rfl
 
+theorem eofItem_ne_invalid (σ : BState) (u : Bytes) : eofItem σ u ≠ .invalid := by
+  unfold eofItem; split <;> simp
+
+/-- **invalid is final (async)**: once a call has reported an invalid message, every later call reports
+it again and consumes nothing — whatever the transport still delivers, whatever its end. Nobody is
+ever handed what is left of a rejected reply. -/
+theorem recvLoopA_invalid_forever (cs : List Bytes) (t : Term) (σ : BState) (buf : Bytes)
+    (h : (recvLoopA σ buf cs t).1 = .invalid) (cs' : List Bytes) (t' : Term) :
+    recvLoopA (recvLoopA σ buf cs t).2.2.2 (recvLoopA σ buf cs t).2.1 cs' t' =
+      (.invalid, (recvLoopA σ buf cs t).2.1, cs', (recvLoopA σ buf cs t).2.2.2) := by
+  induction cs generalizing σ buf with
+  | nil =>
+    have hid := feed_idem σ buf
+    rcases hf : feed σ buf with ⟨σ', rest, out⟩
+    rw [hf] at hid
+    cases out with
+    | done r => rw [recvLoopA, hf] at h; simp at h
+    | panic => rw [recvLoopA, hf] at h; simp at h
+    | pending =>
+      rw [recvLoopA, hf] at h
+      simp only at h
+      cases t with
+      | eof => exact absurd h (eofItem_ne_invalid _ _)
+      | ioerr k => simp [termItem] at h
+    | invalid =>
+      have hL : recvLoopA σ buf [] t = (.invalid, rest, [], σ') := by rw [recvLoopA, hf]
+      rw [hL]
+      simp only
+      rw [recvLoopA, hid (Or.inr rfl)]
+  | cons c cs ih =>
+    have hid := feed_idem σ buf
+    rcases hf : feed σ buf with ⟨σ', rest, out⟩
+    rw [hf] at hid
+    cases out with
+    | done r => rw [recvLoopA, hf] at h; simp at h
+    | panic => rw [recvLoopA, hf] at h; simp at h
+    | invalid =>
+      have hL : recvLoopA σ buf (c :: cs) t = (.invalid, rest, c :: cs, σ') := by rw [recvLoopA, hf]
+      rw [hL]
+      simp only
+      rw [recvLoopA, hid (Or.inr rfl)]
+    | pending =>
+      by_cases hc : c.isEmpty
+      · rw [recvLoopA, hf] at h
+        simp only [hc, if_true] at h
+        exact absurd h (eofItem_ne_invalid _ _)
+      · have hL : recvLoopA σ buf (c :: cs) t = recvLoopA σ' (rest ++ c) cs t := by
+          rw [recvLoopA, hf]; simp only [hc]; rfl
+        rw [hL] at h ⊢
+        exact ih σ' (rest ++ c) h
+
 /-! ### blocking connection -/
 
 theorem recvLoopS_nil (fuel : Nat) (σ : BState) (b : SBuf) (term : Term) (hcap : ¬ b.cap < b.data.length) :
@@ -187,5 +238,51 @@ theorem sessionS_sticky (extra : Nat) (σ : BState) (b : SBuf) (term : Term) (hc
     cases it with
     | resp r => exact absurd rfl (h r)
     | _ => simp only [List.replicate_succ]; rw [ih']; rfl
+
+/-- **invalid is final (blocking)** -/
+theorem recvLoopS_invalid_forever (f : Nat) (cs : List Bytes) (t : Term) (σ : BState) (b : SBuf)
+    (h : (recvLoopS f σ b cs t).1 = .invalid) (f' : Nat) (cs' : List Bytes) (t' : Term) :
+    recvLoopS (f' + 1) (recvLoopS f σ b cs t).2.2.2 (recvLoopS f σ b cs t).2.1 cs' t' =
+      (.invalid, (recvLoopS f σ b cs t).2.1, cs', (recvLoopS f σ b cs t).2.2.2) := by
+  induction f generalizing cs σ b with
+  | zero => rw [recvLoopS] at h; simp at h
+  | succ n ih =>
+    by_cases hcap : b.cap < b.data.length
+    · rw [recvLoopS] at h; simp [hcap] at h
+    · have hid := feed_idem σ b.data
+      have hrl := feed_rest_length σ b.data
+      rcases hf : feed σ b.data with ⟨σ', rest, out⟩
+      rw [hf] at hid hrl
+      simp only at hrl
+      cases out with
+      | done r => rw [recvLoopS] at h; simp [hcap, hf] at h
+      | panic => rw [recvLoopS] at h; simp [hcap, hf] at h
+      | invalid =>
+        have hL : recvLoopS (n + 1) σ b cs t = (.invalid, { b with data := rest }, cs, σ') := by
+          rw [recvLoopS]; simp only [hcap, if_false, hf]
+        rw [hL]
+        simp only
+        have hcap' : ¬ ({ b with data := rest } : SBuf).cap < ({ b with data := rest } : SBuf).data.length := by
+          simp only; omega
+        rw [recvLoopS]
+        simp only [hcap', if_false, hid (Or.inr rfl)]
+      | pending =>
+        cases hrc : readChunk (b.cap - rest.length) cs with
+        | none =>
+          rw [recvLoopS] at h
+          simp only [hcap, if_false, hf, hrc] at h
+          cases t with
+          | eof => exact absurd h (eofItem_ne_invalid _ _)
+          | ioerr k => simp [termItem] at h
+        | some p =>
+          obtain ⟨got, cs2⟩ := p
+          by_cases hg : got.isEmpty
+          · rw [recvLoopS] at h
+            simp only [hcap, if_false, hf, hrc, hg, if_true] at h
+            exact absurd h (eofItem_ne_invalid _ _)
+          · have hL : recvLoopS (n + 1) σ b cs t = recvLoopS n σ' (afterRead b rest got) cs2 t := by
+              rw [recvLoopS]; simp only [hcap, if_false, hf, hrc, hg]; rfl
+            rw [hL] at h ⊢
+            exact ih cs2 σ' (afterRead b rest got) h
 
 end Mpd.Conn
